@@ -590,6 +590,81 @@ do_drbg(char * l)
 	vt_begin("drbg_end"); vt_int("status", st); vt_end();
 }
 
+
+/* aesfirst K KEY1 KEY2 BLK : (first AES use of this process) the K-th allocation from here fails; two key expansions, then
+ * both keys are used, the first one again after the second expansion */
+static void
+do_aesfirst(char * l)
+{
+	char k1hex[128], k2hex[128], bhex[64];
+	uint8_t k1b[64], k2b[64], blk[16], o[16];
+	size_t k1len, k2len;
+	struct crypto_aes_key * k1, * k2;
+	struct crypto_aesctr * st;
+	long failat;
+	int round;
+
+	if (sscanf(l, "aesfirst %ld %127s %127s %63s", &failat, k1hex, k2hex, bhex) != 4) return;
+	k1len = unhex(k1hex, k1b, 64); k2len = unhex(k2hex, k2b, 64); unhex(bhex, blk, 16);
+	aw_reset(); aw_clear_injected(); aw_plan(failat, 0);
+	k1 = crypto_aes_key_expand(k1b, k1len);
+	vt_begin("aes_expand"); vt_bool("ok", k1 != NULL); vt_int("inj", aw_injected()); vt_end();
+	k2 = crypto_aes_key_expand(k2b, k2len);
+	vt_begin("aes_expand"); vt_bool("ok", k2 != NULL); vt_int("inj", aw_injected()); vt_end();
+	aw_plan(0, 0);
+	for (round = 0; round < 2; round++) {
+		if (k1 != NULL) {
+			crypto_aes_encrypt_block(blk, o, k1);
+			vt_begin("aes"); vt_str("key", k1hex); vt_str("in", bhex); vt_hex("out", o, 16); vt_int("tainted", 0); vt_end();
+		}
+		if (k2 != NULL) {
+			crypto_aes_encrypt_block(blk, o, k2);
+			vt_begin("aes"); vt_str("key", k2hex); vt_str("in", bhex); vt_hex("out", o, 16); vt_int("tainted", 0); vt_end();
+		}
+		/* a counter-mode stream in between (its first use may run the self-test again) */
+		if (round == 0 && k2 != NULL && (st = crypto_aesctr_init(k2, 0)) != NULL) {
+			uint8_t z[16], zo[16];
+			memset(z, 0, 16);
+			crypto_aesctr_stream(st, z, zo, 16);
+			crypto_aesctr_free(st);
+			vt_begin("aes"); vt_str("key", k2hex); vt_str("in", "00000000000000000000000000000000"); vt_hex("out", zo, 16); vt_int("tainted", 0); vt_end();
+		}
+	}
+	if (k1 != NULL) crypto_aes_key_free(k1);
+	if (k2 != NULL) crypto_aes_key_free(k2);
+}
+
+/* aesfresh K KEY1 KEY2 BLK : run "aesfirst ..." in a newly executed copy of this driver (the choice between the hardware and
+ * the software AES is made once per process) and splice its events into the trace */
+static const char * self_trace;
+static void
+do_aesfresh(char * l)
+{
+	char prog[4096], tr[4096], line[8192];
+	FILE * f;
+	pid_t pid;
+	int st = 0;
+
+	snprintf(prog, sizeof(prog), "%s.fresh.prog", self_trace);
+	snprintf(tr, sizeof(tr), "%s.fresh.ndjson", self_trace);
+	if ((f = fopen(prog, "w")) == NULL) return;
+	fprintf(f, "aesfirst %s", l + strlen("aesfresh "));
+	fclose(f);
+	vt_flush(); fflush(NULL);
+	if ((pid = fork()) == 0) {
+		execl("/proc/self/exe", "drv_crypto", prog, tr, (char *)NULL);
+		_exit(97);
+	}
+	waitpid(pid, &st, 0);
+	if ((f = fopen(tr, "r")) != NULL) {
+		while (fgets(line, sizeof(line), f) != NULL)
+			if (strstr(line, "\"e\":\"reset\"") == NULL) fputs(line, vt_out);
+		fclose(f);
+	}
+	unlink(prog); unlink(tr);
+	vt_begin("fresh_end"); vt_int("status", st); vt_end();
+}
+
 int
 main(int argc, char ** argv)
 {
@@ -600,6 +675,7 @@ main(int argc, char ** argv)
 	CRYPTO_set_mem_functions(ossl_malloc, ossl_realloc, ossl_free);
 	if ((f = fopen(argv[1], "r")) == NULL) { perror(argv[1]); return (3); }
 	vt_open(argv[2]);
+	self_trace = argv[2];
 	aw_free_hook = free_hook;
 	aw_enable(1);
 	while (fgets(line, sizeof(line), f) != NULL) {
@@ -609,6 +685,8 @@ main(int argc, char ** argv)
 		else if (strncmp(line, "pbkdf2 ", 7) == 0) do_pbkdf2(line);
 		else if (strncmp(line, "crc ", 4) == 0) do_crc(line);
 		else if (strncmp(line, "aes ", 4) == 0) do_aes(line);
+		else if (strncmp(line, "aesfirst ", 9) == 0) do_aesfirst(line);
+		else if (strncmp(line, "aesfresh ", 9) == 0) do_aesfresh(line);
 		else if (strncmp(line, "ctr ", 4) == 0) do_ctr(line);
 		else if (strncmp(line, "dh", 2) == 0) do_dh(line);
 		else if (strncmp(line, "sig ", 4) == 0) do_sig(line);
